@@ -382,7 +382,7 @@ theorem first_null_unique {m : Map X} {i d F F' : Nat}
   · exact absurd h1' (h2 F' h)
 
 /-- two faces that passed the checks of `three_link` have the same shape -/
-theorem SameShape.shapes {m : Map X} (hw : WF 4 m) {ld rd : Nat} (hl0 : ld ≠ 0) (hr0 : rd ≠ 0)
+theorem sameShape_shapes {m : Map X} (hw : WF 4 m) {ld rd : Nat} (hl0 : ld ≠ 0) (hr0 : rd ≠ 0)
     (h : SameShape m ld rd) {s s' : Shape} (hs : HasShape m 1 0 ld s) (hs' : HasShape m 0 1 rd s') :
     s = s' := by
   have n1 : m.β 1 0 = 0 := hw.null 1 (by omega)
@@ -438,7 +438,7 @@ theorem C02_refusal (n : Nat) {m : Map X} {ld rd : Nat} {s s' : Shape} (hw : WF 
     (hs : HasShape m 1 0 ld s) (hs' : HasShape m 0 1 rd s') (hdiff : s ≠ s') :
     ∀ u m', run (threeLink3 (X := X) n ld rd) m ≠ (.ok u, m') := by
   intro u m' h
-  exact hdiff ((C02_three_link_checks_shape n hw hl hr hne h).shapes hw hl.1 hr.1 hs hs')
+  exact hdiff (sameShape_shapes hw hl.1 hr.1 (C02_three_link_checks_shape n hw hl hr hne h) hs hs')
 
 /-- the same for `three_sew` -/
 theorem C02_refusal_sew (cfg : Cfg X) (n : Nat) {m : Map X} {ld rd : Nat} {s s' : Shape} (hw : WF 4 m)
@@ -470,5 +470,100 @@ theorem C02_refused_call_changes_nothing (cfg : Cfg X) {m : Map X} {ld rd : Nat}
   cases sew with
   | true => exact key _ (C02_refusal_sew cfg m.n hw hl hr hne hs hs' hdiff)
   | false => exact key _ (C02_refusal m.n hw hl hr hne hs hs' hdiff)
+
+
+/-! ## non-vacuity: a concrete well-formed mirrored 3-map and an admissible history of every op kind -/
+
+/-- two triangles 1-2-3 and 4-5-6 (geometrically mirror images: 3-sewable along `(1, 4)`), a
+    square 7-8-9-10, an open chain 11-12-13, a free dart 14, dart 15 removed -/
+def exMap : Map Val :=
+  { (Map.empty 4 6 16 : Map Val) with
+    b := #[#[0, 3, 1, 2, 6, 4, 5, 10, 7, 8, 9, 0, 11, 12, 0, 0],
+           #[0, 2, 3, 1, 5, 6, 4, 8, 9, 10, 7, 12, 13, 0, 0, 0],
+           Array.replicate 16 0, Array.replicate 16 0]
+    u := #[false, false, false, false, false, false, false, false, false, false, false, false, false, false,
+           false, true]
+    a := #[#[none, some (.pt 0 0 0), some (.pt 1 0 0), some (.pt 0 1 0), some (.pt 1 0 0), some (.pt 0 0 0),
+             some (.pt 0 1 0), some (.pt 0 0 1), some (.pt 1 0 1), some (.pt 1 1 1), some (.pt 0 1 1),
+             some (.pt 1 0 1), some (.pt 0 0 1), some (.pt 0 (-1) 1), some (.pt 5 5 5), none],
+           #[none, some (.tm (.leaf 1)), none, none, some (.tm (.leaf 4)), none, none, none, none, none, none,
+             none, none, none, none, none, none],
+           Array.replicate 17 none,
+           #[none, some (.tm (.leaf 10)), none, none, none, none, none, none, none, none, none,
+             none, none, none, none, none, none],
+           Array.replicate 17 none, Array.replicate 17 none] }
+
+/-- vertices, a vertex attribute (`VTerm`) and a face attribute (`FTerm`) -/
+def exCfg : Cfg Val := stdCfg 4 5
+
+/-- every op kind; outcomes, in order: four successes, three refusals (`NonFreeImage`: square on a
+    triangle; `AsymmetricalFaces`: triangle on a square, open chain on a triangle), the same-face
+    3-link (refused after a transient β3 fixed point), then successes -/
+def exHistory : List Op3 :=
+  [.sew 3 1 4, .unlink 1 2, .link 1 2 3, .unsew 3 2, .link 3 7 1, .link 3 1 7, .link 3 11 1, .link 3 7 9,
+   .sew 2 7 11, .unsew 2 7, .link 2 1 4, .unlink 2 4, .sew 1 13 14, .unsew 1 13,
+   .link 3 1 4, .unlink 3 6,
+   .removeFreeDart 14, .insertFreeDart, .addFreeDarts 2, .link 3 16 17, .removeFreeDartTx 14]
+
+example : WF 4 exMap := by decide +kernel
+example : Mirror exMap := by decide +kernel
+example : HistoryOK exCfg exMap exHistory := by decide +kernel
+/-- the history is not trivial: the 3-sew really glues the two triangles, mirrored -/
+example : (List.range 7).map (((exHistory.take 1).foldl (step exCfg) exMap).β 3) = [0, 4, 6, 5, 1, 3, 2] := by
+  decide +kernel
+/-- … and merges the vertex data of `(β1 l, r)` pairs into the smaller id -/
+example : ((exHistory.take 1).foldl (step exCfg) exMap).att 0 1 = some (.pt 0 0 0) ∧
+    ((exHistory.take 1).foldl (step exCfg) exMap).att 0 5 = none ∧
+    ((exHistory.take 1).foldl (step exCfg) exMap).att 1 2 = some (.tm (.minc (.leaf 4))) := by decide +kernel
+/-- the 3-D 1-unlink also unlinks the β3 images -/
+example : ((exHistory.take 2).foldl (step exCfg) exMap).β 1 5 = 0 := by decide +kernel
+example : (exHistory.foldl (step exCfg) exMap).n = 18 ∧ (exHistory.foldl (step exCfg) exMap).β 3 16 = 17 := by
+  decide +kernel
+example : WF 4 (exHistory.foldl (step exCfg) exMap) ∧ Mirror (exHistory.foldl (step exCfg) exMap) :=
+  C02_history_preserves_WF_and_Mirror _ _ _ (by decide +kernel) (by decide +kernel) (by decide +kernel)
+example : WF 4 (step exCfg exMap (.sew 3 1 4)) :=
+  C02_step_preserves_WF _ _ _ (by decide +kernel) (by decide +kernel)
+example : Mirror (step exCfg exMap (.link 3 11 12)) :=
+  C02_step_preserves_Mirror _ _ _ (by decide +kernel) (by decide +kernel) (by decide +kernel)
+example : NoImageOfUnused 4 exMap := C02_unused_is_nobodys_image (by decide +kernel)
+
+/-- refusal, closed faces of different lengths (triangle on the left, square on the right: the
+    case that was accepted before the D1 fix) -/
+example : HasShape exMap 1 0 1 (.closed 3) ∧ HasShape exMap 0 1 7 (.closed 4) := by decide +kernel
+example : ∀ u m', run (threeLink3 16 1 7) exMap ≠ (.ok u, m') :=
+  C02_refusal 16 (s := .closed 3) (s' := .closed 4) (by decide +kernel) (by decide +kernel) (by decide +kernel)
+    (by decide) (by decide +kernel) (by decide +kernel) (by decide)
+example : (run (threeLink3 16 1 7) exMap).1 = .err (errAsym 1 7) := by decide +kernel
+example : (run (threeLink3 16 7 1) exMap).1 = .err (errNonFreeImage 3 10 1) := by decide +kernel
+/-- refusal, closed against open (dart 12 has one dart ahead, one behind) -/
+example : HasShape exMap 0 1 12 (.opened 2 2) ∧ HasShape exMap 1 0 12 (.opened 2 2) := by decide +kernel
+example : ∀ u m', run (threeSew3 exCfg 16 1 12) exMap ≠ (.ok u, m') :=
+  C02_refusal_sew exCfg 16 (s := .closed 3) (s' := .opened 2 2) (by decide +kernel) (by decide +kernel)
+    (by decide +kernel) (by decide) (by decide +kernel) (by decide +kernel) (by decide)
+/-- two open chains 1-2-3 and 4-5-6 -/
+def exOpen : Map Val :=
+  { (Map.empty 4 1 7 : Map Val) with
+    b := #[#[0, 0, 1, 2, 0, 4, 5], #[0, 2, 3, 0, 5, 6, 0], Array.replicate 7 0, Array.replicate 7 0] }
+
+/-- refusal, open faces offset by one dart: `1` has 3 darts ahead and 1 behind; read as a right
+    dart (β0 ahead, β1 behind) so has `6`, but `5` has 2 and 2 -/
+example : HasShape exOpen 1 0 1 (.opened 3 1) ∧ HasShape exOpen 0 1 6 (.opened 3 1) ∧
+    HasShape exOpen 0 1 5 (.opened 2 2) := by decide +kernel
+example : (run (threeLink3 7 1 6) exOpen).1 = .ok () := by decide +kernel
+example : (run (threeLink3 7 1 5) exOpen).1 = .err (errAsym 1 5) := by decide +kernel
+example : step exCfg exOpen (.link 3 1 5) = exOpen :=
+  (C02_refused_call_changes_nothing exCfg (m := exOpen) (ld := 1) (rd := 5)
+    (s := .opened 3 1) (s' := .opened 2 2) (by decide +kernel) (by decide +kernel) (by decide +kernel)
+    (by decide) (by decide +kernel) (by decide +kernel) (by decide) false).2
+/-- a successful 3-link has checked the shapes -/
+example : SameShape exMap 1 4 :=
+  C02_three_link_checks_shape 16 (m' := (run (threeLink3 16 1 4) exMap).2) (u := ())
+    (by decide +kernel) (by decide +kernel) (by decide +kernel) (by decide)
+    (Prod.ext (by decide +kernel : (run (threeLink3 16 1 4) exMap).1 = .ok ()) rfl)
+/-- the same-face 3-link: the walk hands `(8, 8)` to the core, the next round `(9, 7)` is refused -/
+example : (run (threeLink3 16 7 9) exMap).1 = .err (errNonFreeBase 3 9 7) := by decide +kernel
+/-- `ArgsOK` is needed: a 3-link of a loop dart with itself "succeeds" with a β3 fixed point -/
+example : ¬ WF 4 (atomically (threeLink3 2 1 1)
+    ({ (Map.empty 4 1 2 : Map Val) with b := #[#[0, 1], #[0, 1], #[0, 0], #[0, 0]] })).2 := by decide +kernel
 
 end HC.C02
